@@ -164,7 +164,7 @@ class Transport:
             st = {'ran': False}
 
             def preempt(conn, routine):
-                if st['ran']:
+                if st['ran'] or getattr(conn, 'preempt_point', None) != 'start-transaction':
                     return
                 st['ran'] = True
                 self.fired.append((idx, kind, action))
